@@ -1265,8 +1265,14 @@ class RTCSctpTransport(AsyncIOEventEmitter):
         if uint32_gt(self._last_sacked_tsn, chunk.cumulative_tsn):
             return
 
-        # a SACK cannot acknowledge a TSN which was never assigned
-        if not uint32_gte(tsn_minus_one(self._local_tsn), chunk.cumulative_tsn):
+        # a SACK cannot acknowledge a TSN which was never sent
+        if self._sent_queue:
+            highest_sent_tsn = self._sent_queue[-1].tsn
+        elif uint32_gt(self._advanced_peer_ack_tsn, self._last_sacked_tsn):
+            highest_sent_tsn = self._advanced_peer_ack_tsn
+        else:
+            highest_sent_tsn = self._last_sacked_tsn
+        if not uint32_gte(highest_sent_tsn, chunk.cumulative_tsn):
             return
 
         received_time = time.time()
